@@ -133,6 +133,14 @@ def run(F, R):
         fnname = re.sub(r"\{impl#\d+\}", "{impl}", b.defp.replace("async_graphql::registry::", ""))
         R.check(need <= reads, "R17.3", "input-value-emitter:%s" % fnname, b.where(), "reads %s" % sorted(reads),
                 "%s reads only %s of a MetaInputValue: %s never reaches the SDL" % (b.name, sorted(reads), sorted(need - reads)))
+        # ... and unconditionally: the deprecation marker and the default value are written on every path, not as alternatives
+        if b.defp in direct:
+            dep = [c.bb for c in b.calls() if c.callee and re.search(r"export_sdl::write_deprecated$", c.callee)]
+            dep += [bb for bb, st in b.all_stmts() if ".deprecation" in str(st[1])]
+            on_all = bool(dep) and all(b.must_pass(sorted(set(dep)), e) for e in b.exits())
+            R.check(on_all, "R17.3", "input-value-emitter-deprecation-on-every-path:%s" % fnname, b.where(), "deprecation handled on every path",
+                    "%s writes the @deprecated marker only on some paths (e.g. only when there is no default value): a deprecated argument / input field with a "
+                    "default loses its deprecation in the SDL" % b.name)
         callers = [c.body for c in F.callers_of(re.escape(b.defp) + "$")]
         desc = "description" in reads
         for cb in callers:
